@@ -96,6 +96,7 @@ class Ctx:
         self.conc_forks = 0
         self.rng = None
         self.degraded = False
+        self.dumped = 0
 
     # -- per-path reset ----------------------------------------------------
     def begin_path(self, prefix):
@@ -1037,7 +1038,8 @@ class PathResult:
 
 def explore(fn, W=64, seed=0, max_paths=200000, deadline=None,
             max_decisions=20000, on_path=None, solver_timeout_ms=120000,
-            want_witness=True, explode_limit=3000, n_samples=96):
+            want_witness=True, explode_limit=3000, n_samples=96,
+            dump_queries=0):
     """Enumerate all feasible paths of harness `fn(ctx)`.
 
     fn returns a z3 Bool / python bool `ok` (property on this path), or None
@@ -1143,6 +1145,13 @@ def explore(fn, W=64, seed=0, max_paths=200000, deadline=None,
                 res['verdict'] = str(r)
                 if r == z3.sat:
                     res['cex'] = ctx.assignment_from_model(ctx._last.model())
+                elif r == z3.unsat and ctx.dumped < dump_queries:
+                    # export this discharged query for the second solvers
+                    ctx.dumped += 1
+                    d = z3.Solver()
+                    d.add(*ctx.solver.assertions())
+                    d.add(z3.Not(ok))
+                    res['smt2'] = d.to_smt2()
             if ctx.obligations:
                 r = ctx.check(z3.Not(z3.And(*ctx.obligations)))
                 if r != z3.unsat:
